@@ -32,6 +32,7 @@ def replyStr : Reply → String
   | .typeError => "TypeError"
   | .unknownEvent => "UnknownEvent"
   | .invalidState => "InvalidState"
+  | .attributeError => "AttributeError"
 
 def b01 (b : Bool) : String := if b then "1" else "0"
 
@@ -87,6 +88,11 @@ def handle (d : DState) : List String → DState × String
     | some op =>
       let (s, o) := step d.st op
       ({ st := s }, replyStr o.reply ++ " " ++ obs s)
+    | none => (d, "bad-op")
+  | ["waitinit", "-"] => (d, replyStr (waitInitReply d.st none))
+  | ["waitinit", i] =>
+    match i.toNat? with
+    | some n => (d, replyStr (waitInitReply d.st (some n)))
     | none => (d, "bad-op")
   | ["result", "-"] =>
     (d, s!"rf={rfStr (runForeverRaises d.st)} sd={errOptStr (shutdownRaises d.st)} run=-")
